@@ -341,7 +341,8 @@ func (eval Evaluator) InnerFunction(ctIn *Ciphertext, batchSize, n int, f func(a
 	}
 
 	if n == 1 {
-		opOut.Copy(ctIn)
+		// ctInNTT rather than ctIn: the output is brought back out of the NTT domain below
+		opOut.Copy(ctInNTT)
 	} else {
 
 		// Accumulator mod Q
@@ -433,6 +434,7 @@ func (eval Evaluator) InnerFunction(ctIn *Ciphertext, batchSize, n int, f func(a
 	if !ctIn.IsNTT {
 		ringQ.INTT(opOut.Value[0], opOut.Value[0])
 		ringQ.INTT(opOut.Value[1], opOut.Value[1])
+		opOut.IsNTT = false
 	}
 
 	return
